@@ -248,12 +248,38 @@ def d_stage_mem(old_ir, new_ir, call):
     # shape of the rewrite: was a load nest / a store nest emitted for the staging buffer?
     new_name = call.kwargs.get("new_buf_name")
     load = store = False
+
+    def copy_nest(s):
+        """(dst, src) of a copy nest `for i0: for i1: [if guard:] dst[..] (+)= src[..]` whose staging-side
+        indices are exactly the loop iterators (what DoStageMem emits); None for anything else, in
+        particular for a statement of the staged block that merely mentions both buffers"""
+        iters = []
+        while isinstance(s, LoopIR.For) and len(s.body) == 1:
+            iters.append(s.iter)
+            s = s.body[0]
+        while isinstance(s, LoopIR.If) and len(s.body) == 1 and not s.orelse:
+            s = s.body[0]
+        if not isinstance(s, (LoopIR.Assign, LoopIR.Reduce)):
+            return None
+
+        def is_iters(idx):
+            return len(idx) == len(iters) and all(isinstance(e, LoopIR.Read) and not e.idx and e.name is i for e, i in zip(idx, iters))
+
+        if str(s.name) == new_name and is_iters(s.idx):
+            if isinstance(s.rhs, LoopIR.Read) and str(s.rhs.name) == buf_name:
+                return "load"
+            if isinstance(s.rhs, LoopIR.Const):
+                return "load"  # accum=True: zero-initialisation
+        if str(s.name) == buf_name and isinstance(s.rhs, LoopIR.Read) and str(s.rhs.name) == new_name and is_iters(s.rhs.idx):
+            return "store"
+        return None
+
     for _, s in irutil.all_stmts(new_ir):
-        if isinstance(s, (LoopIR.Assign, LoopIR.Reduce)) and isinstance(s.rhs, LoopIR.Read):
-            if str(s.name) == new_name and str(s.rhs.name) == buf_name:
-                load = True
-            if str(s.name) == buf_name and str(s.rhs.name) == new_name:
-                store = True
+        k = copy_nest(s) if (slice_window and isinstance(s, LoopIR.For)) or (not slice_window and isinstance(s, (LoopIR.Assign, LoopIR.Reduce, LoopIR.If))) else None
+        if k == "load":
+            load = True
+        elif k == "store":
+            store = True
     return {
         "block_writes_never_reads": bool(writes) and not reads,
         "slice_window": slice_window,
